@@ -30,11 +30,23 @@ def strategy(tier):
 
     def mk(t):
         (x0, y0, w, h, ny, nx, dt, wdt, fill, copy, usemask,
-         wvals, dvals, mvals, order) = t
+         wvals, dvals, mvals, order, pattern) = t
         if dt in ('int64', 'int16') and fill not in ('nan', 'inf', '-inf'):
             fill = float(int(fill))
         n = max(1, w * h)
         weights = [wvals[i % len(wvals)] for i in range(w * h)]
+        # structured footprints: the positive weights confined to a band of
+        # rows / columns at one side of the box, to one corner, or absent
+        kind, k = pattern
+        if kind != 'scattered' and w and h:
+            def keep(i, j):          # row i, column j of the box
+                return {'rows_low': i < k, 'rows_high': i >= h - k,
+                        'cols_low': j < k, 'cols_high': j >= w - k,
+                        'corner_ll': i < k and j < k,
+                        'corner_ur': i >= h - k and j >= w - k,
+                        'all_zero': False}[kind]
+            weights = [(v if v > 0 else 1.0) if keep(idx // w, idx % w) else 0.0
+                       for idx, v in enumerate(weights)]
         if wdt == 'int':
             weights = [1 if v > 0.5 else 0 for v in weights]
         data = [dvals[i % len(dvals)] for i in range(ny * nx)]
@@ -59,7 +71,11 @@ def strategy(tier):
         st.lists(wv, min_size=3, max_size=24),
         st.lists(dv, min_size=3, max_size=24),
         st.lists(st.booleans(), min_size=2, max_size=11),
-        st.sampled_from(['C', 'C', 'F', 'strided'])).map(mk)
+        st.sampled_from(['C', 'C', 'F', 'strided']),
+        st.tuples(st.sampled_from(['scattered', 'scattered', 'scattered',
+                                   'rows_low', 'rows_high', 'cols_low',
+                                   'cols_high', 'corner_ll', 'corner_ur',
+                                   'all_zero']), st.integers(1, 3))).map(mk)
 
 
 def _f(v):
